@@ -50,6 +50,12 @@ CLAIMS = {
         'By induction over the input bytes: total and memory-safe on any byte string, and chunk-independent (the step has no state outside the parser object).',
    note=TB + 'Containers are ghost models: context stack = 3-entry window + depth with C01 top/pop preconditions, token buffer = 15 characters + length, Var tree = counters. NOT decided: agreement with an independent JSON parser on all RFC 8259 documents, the value tree built by put()/Var, atof, prefix rejection as a separate theorem, Json::decode wrapper (parser reuse across calls).',
    technique='CBMC code contract (inductive invariant) on the extracted loop body'),
+ 'C07': dict(level='proof', design='6 C07',
+   text='One step (loop body) of Xml::decode proved for EVERY byte and EVERY configuration satisfying an invariant (element-stack depth vs. parser state): the element stack never underflows (closing more than was opened), '
+        'the character-reference scratch buffer suffices for every 32-bit code, the invariant is preserved or the document rejected: by induction total and memory-safe on any byte string. '
+        'Escape lemma: for every byte, in text and in both kinds of attribute value, the text XmlCodec::escape writes is decoded back to exactly that byte.',
+   note=TB + 'Stack<Xml> is modelled by its depth, Strings by length + first characters, tag comparison abstracted. NOT decided: parent() links of the built tree (Xml handles), whitespace dropping / text merging, indented mode, tag/attribute name round trip, Xml handle reference counting.',
+   technique='CBMC code contract (inductive invariant) on the extracted loop body + full-domain escape lemma'),
  'C08': dict(level='proof', design='6 C08',
    text='For EVERY Unicode scalar value at once (one symbolic code point): utf32toUtf8 emits exactly the bytes of Unicode table 3-6, utf8toUtf32 returns it, '
         'utf8toUtf16 gives table 3-5, utf16toUtf8 returns the same bytes, code-point iteration yields the value and its length, count() of two values is 2. '
